@@ -136,7 +136,10 @@ func loadFindings() []Finding {
 	return fs
 }
 
+var partSuffix = regexp.MustCompile(`~p\d+$`)
+
 func baseName(n string) string {
+	n = partSuffix.ReplaceAllString(n, "")
 	if i := strings.LastIndex(n, "#"); i > 0 {
 		if _, err := strconv.Atoi(n[i+1:]); err == nil {
 			return n[:i]
@@ -212,7 +215,8 @@ func solveAll(obls []*Obligation, timeoutS int, confirm bool) (float64, map[stri
 			sem <- struct{}{}
 			defer func() { <-sem }()
 			q := o.Query()
-			r := Solve(q, timeoutS, confirm, o.Name)
+			qf := o.QueryQF()
+			r := SolveWithQF(q, qf, timeoutS, confirm, o.Name)
 			o.Result = &r
 			mu.Lock()
 			total += r.Secs
@@ -637,9 +641,15 @@ func cmdFunc(args []string) int {
 	for _, o := range res.Obls {
 		fmt.Printf("  %-8s %-7s %6.2fs [%s] %s\n", o.Result.Status, o.Result.Solver, o.Result.Secs, strings.Join(o.Tags, ","), o.Name)
 		if d := os.Getenv("GOCV_DUMP_MATCH"); d != "" && strings.Contains(o.Name, d) {
-			p := filepath.Join(verifDir, ".work", sanitize(o.Name)+".smt2")
+			dd := filepath.Join(verifDir, ".work")
+			if v := os.Getenv("GOCV_DUMP_DIR"); v != "" {
+				dd = v
+			}
+			os.MkdirAll(dd, 0o755)
+			p := filepath.Join(dd, sanitize(o.Name)+".smt2")
 			os.WriteFile(p, []byte(o.Query()), 0o644)
 			os.WriteFile(p+".pc", []byte(o.smt.Query(o.prefix, o.pc)), 0o644)
+			os.WriteFile(p+".qf", []byte(o.QueryQF()), 0o644)
 			fmt.Println("    query:", p)
 		}
 		if o.Result.Status != "unsat" {
